@@ -367,6 +367,37 @@ XCHECK = {
     "al_dec2": ("Arith.MemUsage", _xc_out("pair", lambda a: f"obs_al_dec2 {_b(a[0])} {_z(a[1])} {_z(a[2])} {_z(a[3])}")),
 }
 _XCHECK_DONE = set()
+_FILTER_CODE = dict(delta=0, x86=1, ppc=2, ia64=3, arm=4, armthumb=5, sparc=6, arm64=7, riscv=8)
+
+
+def _opt_filters(s):
+    if s == ".":
+        return "[]"
+    out = []
+    for f in s.split(","):
+        w = f.split(":")
+        out += [str(_FILTER_CODE.get(w[0], 9)), _z(w[1])] if len(w) == 2 else ["9", "0"]
+    return "[" + ";".join(out) + "]"
+
+
+def _opt_term(a, m):
+    """driver/h_options.ml: opt <ck> <kind> <d> <lc> <lp> <pb> <mode> <mf> <nice> <depth> <preset> <filters> <_> <len>"""
+    preset = "(-1)" if a[10] == "-" else "0" if a[10] == "e" else _z(a[10][1:])
+    w = m.split(" ")
+    st = dict(new=0, write=1, finish=2)
+    if m == "OK":
+        e = "(0, 0, 0)"
+    elif w[0] == "ERR" and len(w) == 3 and w[2] in st:
+        e = f"(1, {_z(w[1])}, {st[w[2]]})"
+    elif w[0] == "PANIC" and len(w) == 2 and w[1] in st:
+        e = f"(2, 0, {st[w[1]]})"
+    else:
+        return None
+    o = f"(mk_lzma_opts {_z(a[2])} {_z(a[3])} {_z(a[4])} {_z(a[5])} {_z(a[6])} {_z(a[7])} {_z(a[8])} {_z(a[9])} {preset})"
+    return f"ztriple_eqb (obs_opt {_b(a[0])} {_z(a[1])} {o} {_opt_filters(a[11])} {_z(a[13])}) {e}"
+
+
+XCHECK["opt"] = ("Arith.Options", _opt_term)
 XCHECK_SAMPLE = 48          # cases per area and stage
 XCHECK_MAXLEN = 6000        # characters of a case line (a hex byte becomes a Z literal)
 
@@ -383,10 +414,12 @@ def xcheck(cases, model, workdir):
     if not elig:
         res["skipped"] = "no command of this area has an in-Coq twin"
         return res
-    # deterministic sample: evenly strided over the eligible cases of every command
+    # deterministic sample: evenly strided over the eligible cases of every stratum
     by_cmd = {}
     for k in elig:
-        by_cmd.setdefault(cases[k].split(" ")[0], []).append(k)
+        # strata: command x class of the driver's answer (OK / ERR / PANIC ...), so that the error
+        # and panic branches of the model are cross-checked too
+        by_cmd.setdefault(cases[k].split(" ")[0] + " " + model.get(k, "MISSING").split(" ")[0], []).append(k)
     per = max(1, XCHECK_SAMPLE // len(by_cmd))
     pick = []
     for cmd in sorted(by_cmd):
